@@ -1799,6 +1799,17 @@ std::string expression_t::str(bool old) const
     return os.str();
 }
 
+/** The function a call refers to: the callee's own symbol, or for P.f() the declaration f of P's template. */
+static symbol_t called_function(const expression_t& callee)
+{
+    if (callee.get_kind() == DOT && callee[0].get_type().is_process()) {
+        const auto* process = static_cast<const instance_t*>(callee[0].get_symbol().get_data());
+        if (process != nullptr && process->templ != nullptr)
+            return process->templ->frame[callee.get_index()];
+    }
+    return callee.get_symbol();
+}
+
 void expression_t::collect_possible_writes(set<symbol_t>& symbols) const
 {
     function_t* fun;
@@ -1832,7 +1843,7 @@ void expression_t::collect_possible_writes(set<symbol_t>& symbols) const
     case FUN_CALL:
     case FUN_CALL_EXT:
         // Add all symbols which are changed by the function
-        symbol = get(0).get_symbol();
+        symbol = called_function(get(0));
         if ((symbol.get_type().is_function() || symbol.get_type().is_function_external()) && symbol.get_data()) {
             fun = (function_t*)symbol.get_data();
 
@@ -1865,7 +1876,7 @@ void expression_t::collect_possible_reads(set<symbol_t>& symbols, bool collectRa
 
     case FUN_CALL: {
         // Add all symbols which are used by the function
-        auto symbol = get(0).get_symbol();
+        auto symbol = called_function(get(0));
         if (auto type = symbol.get_type(); type.is_function() || type.is_function_external()) {
             if (auto* data = symbol.get_data(); data) {
                 auto fun = static_cast<function_t*>(data);
